@@ -15,6 +15,11 @@ def builtinMap (fn : ρ → Except ε β) : List ρ → List β × Option ε
     | .error e => ([], some e)
     | .ok v => (v :: (builtinMap fn rs).1, (builtinMap fn rs).2)
 
+/-- the builtin `map(f, l₁, l₂, l₃)` for a function that does not raise -/
+def builtinMap3 (f : α → β → γ → δ) : List α → List β → List γ → List δ
+  | x :: xs, y :: ys, z :: zs => f x y z :: builtinMap3 f xs ys zs
+  | _, _, _ => []
+
 /-! ### `getChunks` unfolding -/
 
 theorem getChunks_nil (c : Nat) : getChunks c ([] : List ρ) = [] := by
@@ -144,5 +149,41 @@ theorem builtinMap_total (g : ρ → β) (rows : List ρ) :
   induction rows with
   | nil => rfl
   | cons r rs ih => simp [builtinMap, ih]
+
+/-! ### one turn of the pipeline: the first chunk `a`, then the rest `b` -/
+
+/-- what `executor.map` shows of a run of the builtin `map` that yields `vs` and then raises /
+    is exhausted: with chunk size `c`, the values of the complete chunks before the failing one -/
+def expected (c : Nat) (r : List β × Option ε) : List β × Option ε :=
+  match r.2 with
+  | none => (r.1, none)
+  | some e => (r.1.take (r.1.length / c * c), some e)
+
+theorem chain_step (c : Nat) (hc : 1 ≤ c) (fn : ρ → Except ε β) (a b : List ρ)
+    (ha : a.length ≤ c) (hb : b ≠ [] → a.length = c) (restChunks : List (List ρ))
+    (ih : chain (restChunks.map (processChunk fn)) = expected c (builtinMap fn b)) :
+    chain ((a :: restChunks).map (processChunk fn)) = expected c (builtinMap fn (a ++ b)) := by
+  rw [List.map_cons, processChunk_eq, builtinMap_append]
+  cases h2 : (builtinMap fn a).2 with
+  | some e =>
+    have hlt := builtinMap_length_of_some fn a e h2
+    have : (builtinMap fn a).1.length / c = 0 := Nat.div_eq_of_lt (by omega)
+    simp [chain, expected, this]
+  | none =>
+    have hlen := builtinMap_length_of_none fn a h2
+    simp only [chain, drainElement_eq, ih]
+    cases h3 : (builtinMap fn b).2 with
+    | none => simp [expected, h3]
+    | some e =>
+      have hbne : b ≠ [] := by
+        intro h; subst h; simp [builtinMap] at h3
+      have hac : (builtinMap fn a).1.length = c := by rw [hlen]; exact hb hbne
+      simp only [expected, h3, List.length_append, hac]
+      rw [Nat.add_div_left _ (by omega), Nat.add_mul, Nat.one_mul, Nat.add_comm _ c]
+      congr 1
+      have := List.take_length_add_append (l₁ := (builtinMap fn a).1) (l₂ := (builtinMap fn b).1)
+        ((builtinMap fn b).1.length / c * c)
+      rw [hac] at this
+      exact this.symm
 
 end LokyModel.Chunks
